@@ -219,15 +219,66 @@ def random_consistent_system(rng):
         vz = 0.5 if state == "separate" else 0.0
         vt = np.array([rng.uniform(0.2, 1.0), rng.uniform(-1, 1)]) if state in ("slide", "fly", "separate") else np.zeros(2)
         mu = rng.choice([0.0, 0.3, 0.8])
+        mb = rng.choice([1.0, 3.0, 0.5])       # unequal normal forces: a friction law that reads another contact's normal force shows
         if rng.random() < 0.5:
-            body = PointMass(1.0, q0=np.array([5.0 + b, 0.0, rr + h]), u0=np.array([vt[0], vt[1], vz]), name=f"ball{b}")
+            body = PointMass(mb, q0=np.array([5.0 + b, 0.0, rr + h]), u0=np.array([vt[0], vt[1], vz]), name=f"ball{b}")
         else:
             om = np.array([rng.uniform(-2, 2) for _ in range(3)]) if state != "rest" else np.zeros(3)
-            body = RigidBody(1.0, 0.004 * np.eye(3), q0=np.array([5.0 + b, 0.0, rr + h, 1.0, 0, 0, 0]), u0=np.concatenate([[vt[0], vt[1], vz], om]), name=f"ball{b}")
-        pushes = np.array([rng.choice([0.0, 1.0, 6.0]), 0.0, -9.81])
+            body = RigidBody(mb, 0.004 * mb * np.eye(3), q0=np.array([5.0 + b, 0.0, rr + h, 1.0, 0, 0, 0]), u0=np.concatenate([[vt[0], vt[1], vz], om]), name=f"ball{b}")
+        pushes = np.array([rng.choice([0.0, 1.0, 6.0]), 0.0, -9.81 * mb])
         system.add(body, Sphere2Plane(system.origin, body, mu=mu, r=rr, e_N=0.0, e_F=0.0, name=f"contact{b}"), Force(pushes, body, name=f"gb{b}"))
         desc.append(f"ball-{state}-mu{mu}")
     return system, desc
+
+
+def dedicated_systems(rng):
+    """(builder, description, assemble options or None): orders of contacts and hard fixed points the random generator rarely draws"""
+    from cardillo import System
+    from cardillo.discrete import RigidBody, PointMass, Frame
+    from cardillo.contacts import Sphere2Plane
+    from cardillo.forces import Force
+    from cardillo.math import Exp_SO3
+    from cardillo.solver import SolverOptions
+
+    out = []
+
+    def mixed(order):
+        def build():
+            system = System()
+            A = Exp_SO3(np.array([0.17, -0.11, 0.3]))
+            plane = Frame(A_IB=A, name="plane")
+            n, t1, t2 = A[:, 2], A[:, 0], A[:, 1]
+            r = 0.1
+            heavy = RigidBody(5.0, 0.02 * np.eye(3), q0=RigidBody.pose2q(r * n + 0.0 * t1, A), u0=np.zeros(6), name="heavy")
+            light = RigidBody(0.7, 0.003 * np.eye(3), q0=RigidBody.pose2q(r * n + 1.0 * t1, A), u0=np.concatenate([0.8 * t1 + 0.5 * t2, np.zeros(3)]), name="light")
+            parts = {"heavy": [heavy, Sphere2Plane(plane, heavy, mu=0.0, r=r, e_N=0.0, e_F=0.0, name="c_heavy"), Force(-9.81 * 5.0 * n, heavy, name="g_heavy")],
+                     "light": [light, Sphere2Plane(plane, light, mu=0.37, r=r, e_N=0.0, e_F=0.0, name="c_light"), Force(-9.81 * 0.7 * n, light, name="g_light")]}
+            system.add(plane)
+            for k in order:
+                system.add(*parts[k])
+            return system
+        return build
+    for order in (("heavy", "light"), ("light", "heavy")):
+        out.append((mixed(order), [f"frictionless heavy ball and frictional light sliding ball on an oblique plane, added in the order {order}"], None))
+
+    def stool():
+        system = System()
+        A = Exp_SO3(np.array([0.17, -0.11, 0.0]))
+        n, t1 = A[:, 2], A[:, 0]
+        plane = Frame(A_IB=A, name="plane")
+        h = 0.25
+        Th = np.array([[0.031, 0.004, -0.002], [0.004, 0.027, 0.003], [-0.002, 0.003, 0.044]])
+        body = RigidBody(2.3, Th, q0=RigidBody.pose2q(h * n, A), u0=np.zeros(6), name="stool")
+        system.add(plane, body, Force(-2.3 * 9.81 * n + 0.2 * 2.3 * 9.81 * t1, body, name="load"))
+        for i, f in enumerate(([0.3, 0.0, -h], [-0.2, 0.25, -h], [-0.15, -0.3, -h])):
+            system.add(Sphere2Plane(plane, body, mu=0.6, r=0.0, B_r_CP=np.array(f), e_N=0.0, e_F=0.0, name=f"foot{i}"))
+        return system
+    # three contacts on one body: the fixed point converges slowly; budgets below and above what it needs, with and without continue_with_unconverged
+    for budget in (20, 150, 100000):
+        for cwu in (False, True):
+            out.append((stool, [f"three-legged stool, prox_scaling=0.5, fixed_point_max_iter={budget}, continue_with_unconverged={cwu}"],
+                        SolverOptions(prox_scaling=0.5, fixed_point_max_iter=budget, continue_with_unconverged=cwu, fixed_point_atol=1e-11, fixed_point_rtol=1e-11)))
+    return out
 
 
 def residual_record(system, rid, loose=False):
@@ -335,12 +386,19 @@ def run(ctx):
     recs, infos, descs = [], {}, {}
     notjudged = {}
     nfail = 0
-    for i in range(nsys):
-        system, desc = random_consistent_system(rng)
+    dedicated = dedicated_systems(rng)
+    for i in range(nsys + len(dedicated)):
+        if i < nsys:
+            system, desc = random_consistent_system(rng)
+            aopts = _opts()
+        else:
+            build_, desc, aopts = dedicated[i - nsys]
+            system = build_()
+            aopts = aopts or _opts()
         try:
             with warnings.catch_warnings(), _quiet():
                 warnings.simplefilter("ignore")
-                system.assemble(options=_opts())
+                system.assemble(options=aopts)
         except AssertionError as ex:
             if "does not converge" in str(ex):
                 # a loud failure of the fixed-point iteration is not a rejection of the initial state (and not silent): not judged here
@@ -357,7 +415,7 @@ def run(ctx):
         recs.append(rec); infos[rec["id"]] = info; descs[rec["id"]] = desc
         # the same state declared the initial state of a later time: everything the assembly returns belongs to the new t0
         # (once with the tight options, once without any assemble arguments, i.e. with the default tolerances)
-        for kw, loose in ((dict(options=_opts()), False), ({}, True)):
+        for kw, loose in ((dict(options=aopts), False), ({}, True)):
             try:
                 with warnings.catch_warnings(), _quiet():
                     warnings.simplefilter("ignore")
@@ -366,8 +424,10 @@ def run(ctx):
                 recs.append(rec); infos[rec["id"]] = dict(info, history=f"re-initialised with the same state at t0 = {system.t0}" + (" (default options)" if loose else ""))
                 descs[rec["id"]] = desc + ["re-initialised"]
             except AssertionError as ex:
-                if loose and "does not converge" in str(ex):
-                    notjudged["re-initialisation with default tolerances: fixed point did not converge (loud)"] = notjudged.get("re-initialisation with default tolerances: fixed point did not converge (loud)", 0) + 1
+                if "does not converge" in str(ex):
+                    # a loud failure of the fixed-point iteration is not a matter of this property (as for the first assembly)
+                    kk = "re-initialisation: fixed point did not converge (loud)" + (" (default tolerances)" if loose else "")
+                    notjudged[kk] = notjudged.get(kk, 0) + 1
                     continue
                 ctx.violation("random:reinitialise:AssertionError", f"set_new_initial_state with the unchanged state at a later time raised AssertionError: {ex}; contributions {desc}", {"desc": desc})
             except Exception as ex:
@@ -381,7 +441,7 @@ def run(ctx):
                     qn[b_.qDOF[2]] += 0.7
                 with warnings.catch_warnings(), _quiet():
                     warnings.simplefilter("ignore")
-                    system.set_new_initial_state(qn, system.u0.copy(), t0=system.t0 + 1.0, options=_opts())
+                    system.set_new_initial_state(qn, system.u0.copy(), t0=system.t0 + 1.0, options=aopts)
                 rec, info = residual_record(system, len(recs) + 1)
                 recs.append(rec); infos[rec["id"]] = dict(info, history="re-initialised with every ball lifted off the plane")
                 descs[rec["id"]] = desc + ["re-initialised, balls lifted"]
